@@ -45,12 +45,12 @@ import (
 // above anything machine load can cause and below hx's 180 s no-progress detector. No observation is an absence
 // established by waiting: absences are read after an event ordered behind the possible one (see the comments at each
 // site). Once the bound HAS expired (the tree is broken: the run already carries a violation with a concrete input) later
-// waits are cut to 2 s so that a broken tree is reported in minutes; on a healthy tree that never happens.
+// waits are cut to 300 ms so that a broken tree is reported in minutes; on a healthy tree that never happens.
 var waitFor = 60 * time.Second
 
 func timedOut() {
-	if waitFor > 2*time.Second {
-		waitFor = 2 * time.Second
+	if waitFor > 300*time.Millisecond {
+		waitFor = 300 * time.Millisecond
 	}
 }
 
@@ -676,6 +676,13 @@ func (h *harness) fin(ok bool, who int) step {
 			o.Split = h.splitStarts[len(h.splitStarts)-1]
 		}
 		h.mu.Unlock()
+		// the start has ended (its errgroup waited for EVERY Deploy call it issued): calls of it that arrived after
+		// waitDeploy had its 2*wc (a broken tree deploying to more nodes) must not be taken for the next deployment
+		if h.job.VerifStatus() != "Starting" {
+			h.mu.Lock()
+			h.arrivals = nil
+			h.mu.Unlock()
+		}
 	}
 	st, deps := h.settle()
 	o.Status, o.Deps = statusN(st), deps
